@@ -5,8 +5,8 @@ CONSTANTS
   Shapes = {"v4", "v6", "zero", "empty"}
   MaxSteps = 5
   Births = TRUE
-  LoseMarker = TRUE
-  EmptyUnmarked = FALSE
+  LoseMarker = FALSE
+  EmptyUnmarked = TRUE
   SubLosesMarker = FALSE
 INIT Init
 NEXT Next
